@@ -275,7 +275,7 @@ func ruleDecodeWidth(p *Prog, r *Report) {
 		}
 		vs := facArgs[len(facArgs)-1]
 		// all stores into the value slice
-		for path, v := range in.heap {
+		for path, v := range in.FinalHeap() {
 			if strings.HasPrefix(path, vs.S+"[") {
 				elems = append(elems, v)
 			}
@@ -372,7 +372,7 @@ func ruleDecodeWidth(p *Prog, r *Report) {
 			vs := facArgs[len(facArgs)-1]
 			var probs []string
 			n := 0
-			for path, v := range in.heap {
+			for path, v := range in.FinalHeap() {
 				if !strings.HasPrefix(path, vs.S+"[") {
 					continue
 				}
